@@ -5,3 +5,4 @@ import Driver.CacheEng
 import Driver.TreeEng
 import Driver.CtrlEng
 import Driver.ListerEng
+import Driver.LinEng
